@@ -517,6 +517,35 @@ pub fn record_topdown(args: &Args) {
                 c.swap(0, i);
             }
         }
+        // parity family: x_a ^ x_b ^ x_c = p as four clauses of width 3, optionally chained with a second constraint that shares
+        // a variable, optionally among a few ordinary clauses: a sub-function occurs both plain and negated, so the semantic store
+        // builds complemented edges INSIDE the diagram (conditioning below such a shared node is what a polarity slip needs)
+        if rng.chance(1, 5) && nmax >= 3 {
+            let p = rng.perm(nmax);
+            c = vec![];
+            let mut xor3 = |c: &mut Vec<Vec<(usize, bool)>>, a: usize, b: usize, d: usize, par: bool| {
+                for m in 0..8usize {
+                    // forbid the assignments of the wrong parity: one clause each
+                    let ones = (m & 1) + ((m >> 1) & 1) + ((m >> 2) & 1);
+                    if (ones % 2 == 1) != par {
+                        c.push(vec![(a, m & 1 == 0), (b, (m >> 1) & 1 == 0), (d, (m >> 2) & 1 == 0)]);
+                    }
+                }
+            };
+            xor3(&mut c, p[0], p[1], p[2], rng.coin());
+            if nmax >= 5 && rng.coin() {
+                xor3(&mut c, p[2], p[3], p[4], rng.coin());
+            } else if nmax >= 4 && rng.coin() {
+                c.push(vec![(p[3], rng.coin()), (p[rng.below(3)], rng.coin())]);
+            }
+            if rng.coin() {
+                c.extend(rand_cnf(&mut rng, nmax, 2, 6));
+            }
+            for i in (1..c.len()).rev() {
+                let j = rng.below(i + 1);
+                c.swap(i, j);
+            }
+        }
         // regrouping family: two assignments of the selector variables leave residual CNFs with the same literals grouped
         // differently (a component-cache key that forgets clause boundaries answers one with the other's diagram);
         // the selectors are decided first
@@ -558,6 +587,26 @@ pub fn record_topdown(args: &Args) {
                     let mut c2 = rand_cnf(&mut rng, nv, 6, 25);
                     c2.push(vec![(nv - 1, true), (nv - 1, false)]);
                     cnfs.push(mk_cnf(&c2));
+                }
+                2 if nv >= 2 && rng.coin() => {
+                    // a CNF that only SEARCH refutes (no unit clause: all four clauses over two variables, or all eight over three)
+                    // compiled FIRST in a builder that goes on to compile satisfiable CNFs: whatever a compilation leaves behind
+                    // in the builder on its early exits meets the next compilation
+                    let vars = rng.perm(nv);
+                    let w = if nv >= 3 && rng.coin() { 3 } else { 2 };
+                    let mut core: Vec<Vec<(usize, bool)>> = (0..(1usize << w))
+                        .map(|m| (0..w).map(|k| (vars[k], (m >> k) & 1 == 1)).collect())
+                        .collect();
+                    if !vars[..w].contains(&(nv - 1)) {
+                        core.push(vec![(nv - 1, true), (nv - 1, false)]);
+                    }
+                    for i in (1..core.len()).rev() {
+                        let j = rng.below(i + 1);
+                        core.swap(i, j);
+                    }
+                    let mut c2 = rand_cnf(&mut rng, nv, 5, 25);
+                    c2.push(vec![(nv - 1, true), (nv - 1, false)]);
+                    cnfs = vec![mk_cnf(&core), cnf.clone(), mk_cnf(&c2)];
                 }
                 _ => {}
             }
